@@ -1,6 +1,7 @@
 package sym
 
 import (
+	"fmt"
 	"go/types"
 	"strings"
 
@@ -35,21 +36,34 @@ func (e *Engine) makeChan(st *State, fr *Frame, x *ssa.MakeChan) Value {
 }
 
 // envStep: the environment may have closed the channel since it was last observed.
+// Lazy and quantifier-free: every call advances the state's epoch; the closed flag of
+// a channel is refreshed (closed' = closed or <fresh>) the first time it is read in a
+// new epoch.
 func (e *Engine) envStep(st *State, ch *smt.Term) {
+	if st.OldDepth > 0 {
+		return
+	}
+	if ep, ok := st.Touched[ch]; ok && ep == st.Epoch {
+		return
+	}
 	c := e.C
 	a := e.chClosed(st)
-	now := c.Or(c.Select(a, ch), c.Fresh("env$closed", smt.Bool))
+	// deterministic name per (epoch, channel term): clause evaluations on scratch copies of
+	// the state must see the same refresh
+	now := c.Or(c.Select(a, ch), c.Var(fmt.Sprintf("env$closed$%d$%d", st.Epoch, ch.ID), smt.Bool))
 	st.Heap["chan.closed"] = c.Store(a, ch, now)
+	st.Touched[ch] = st.Epoch
 }
 
 // envStepAll: across a call, any channel may have been closed by the environment.
 func (e *Engine) envStepAll(st *State) {
-	c := e.C
-	a := e.chClosed(st)
-	n := c.Fresh("env$closedmap", a.Sort)
-	k := c.Bound("ch", smt.BV64)
-	st.Assume(c.Forall([]*smt.Term{k}, c.Implies(c.Select(a, k), c.Select(n, k))))
-	st.Heap["chan.closed"] = n
+	st.Epoch++
+}
+
+// closedNow reads the closed flag after letting the environment step.
+func (e *Engine) closedNow(st *State, ch *smt.Term) *smt.Term {
+	e.envStep(st, ch)
+	return e.C.Select(e.chClosed(e.rd(st)), ch)
 }
 
 func (e *Engine) recvEnabled(st *State, ch *smt.Term, closeOnly bool) *smt.Term {
